@@ -16,8 +16,8 @@ carries around while the records are drawn is AMBIENT and must not matter:
   stdio       sys.stdout / sys.stderr replaced by a text buffer / by something that claims to be a terminal
   cwd         the working directory
   trace       a trace function installed with sys.settrace (debugger / coverage)
-  interpreter (own interpreters, c16_ambient_driver.py) python -O, -X dev, -W error, -X importtime-free switches,
-              PYTHONWARNINGS / YAW_NUM_THREADS present BEFORE the library is imported
+  interpreter (own interpreters, c16_ambient_driver.py) python -O, -X dev, -W error::..., -u, -B; PYTHONWARNINGS and
+              YAW_NUM_THREADS present / absent BEFORE the library is imported; each crossed with in-process settings
 
 A case = (window, seed, attribute table, n, chunk size, patch mode, call sizes) and several ambient SETTINGS (the
 neutral one of the harness first, then single deviations taken in turn from a fixed grid that covers every value of
@@ -224,7 +224,11 @@ class Ambient:
         n = 0
         for s in self.sinks:
             try:
-                n += s.getvalue().count("\n") if hasattr(s, "getvalue") else sum(1 for _ in open(s))
+                if hasattr(s, "getvalue"):
+                    n += s.getvalue().count("\n")
+                else:
+                    with open(s) as fh:
+                        n += sum(1 for _ in fh)
             except Exception:
                 pass
         return n
@@ -398,19 +402,25 @@ class Ambient:
             raise ValueError(route)
 
 
+WATCHED_ENV = {"YAW_NUM_THREADS"}      # grows with every variable a setting touches
+
+
 def fingerprint():
-    """the ambient state the settings touch, for the check that a setting is gone after its `with` block"""
+    """the ambient state the settings touch, for the check that a setting is gone after its `with` block (third-party
+    code initialises itself lazily - treecorr adds a logger of its own and sets OMP_PROC_BIND on first use - so only
+    the loggers of the library / of the warnings capture and the watched variables are compared)"""
     mgr = logging.root.manager
     logs = sorted((n, lg.level, tuple(id(h) for h in lg.handlers), lg.propagate, lg.disabled)
                   for n, lg in mgr.loggerDict.items()
-                  if isinstance(lg, logging.Logger) and (lg.level or lg.handlers or not lg.propagate or lg.disabled))
+                  if isinstance(lg, logging.Logger) and (n == "yaw" or n.startswith("yaw.") or n == "py.warnings")
+                  and (lg.level or lg.handlers or not lg.propagate or lg.disabled))
     try:
         fd2 = tuple(os.fstat(2)[:3])
     except OSError:
         fd2 = None
     return dict(loggers=logs, root=(logging.root.level, tuple(id(h) for h in logging.root.handlers)), disable=mgr.disable,
                 capture=getattr(logging, "_warnings_showwarning", None) is not None,
-                env=sorted(os.environ.items()), cwd=os.getcwd(), filters=[repr(f) for f in warnings.filters],
+                env=sorted((k, os.environ.get(k)) for k in WATCHED_ENV), cwd=os.getcwd(), filters=[repr(f) for f in warnings.filters],
                 showwarning=id(warnings.showwarning), stdout=id(sys.stdout), stderr=id(sys.stderr),
                 nperr=sorted(np.geterr().items()), npprint=repr(sorted((k, repr(v)) for k, v in np.get_printoptions().items())),
                 trace=repr(sys.gettrace()), fd2=fd2)
@@ -673,6 +683,7 @@ class CaseRunner:
                 if r not in self.shared:
                     self.shared[r] = self.new_gen()
             pre = self.shared
+        WATCHED_ENV.update((setting.get("env") or {}).keys())
         before = fingerprint()
         with Ambient(setting, self.scratch) as amb:
             for r in routes:
